@@ -322,6 +322,7 @@ package circuitbreaker
 //@   let met := n >= cfg.failureExecutionThreshold && ((cfg.failureRateThreshold != 0 && ret(s.stats.failureRate, 1) >= cfg.failureRateThreshold) || (cfg.failureRateThreshold == 0 && ret(s.stats.failureCount, 1) >= cfg.failureThreshold))
 //@   ensures [C03.closed.opens] met ==> typeis(s.breaker.state, *openState) && asref(s.breaker.state, *openState).stats == asiface(s)
 //@   ensures [C03.closed.stays] !met ==> s.breaker.state == old(s.breaker.state)
+//@   ensures [C03.closed.check_wf] stateWF(s.breaker)
 //@   ensures [C16.breaker.open_event] (met && s.breaker.openListener != nil ==> ncalls(s.breaker.openListener) == 1) && (!met ==> ncalls(s.breaker.openListener) == 0 && ncalls(s.breaker.stateChangedListener) == 0)
 //@   havoc
 //@   modifies s.breaker.state, calls(s.stats.executionCount), calls(s.stats.failureRate), calls(s.stats.failureCount), calls(s.breaker.openListener), calls(s.breaker.stateChangedListener), calls(s.breaker.DelayFunc), calls(s.breaker.clock.CurrentUnixNano), calls(exec.Context)
@@ -334,6 +335,7 @@ package circuitbreaker
 //@   ext now := ret(s.breaker.clock.CurrentUnixNano, 1)
 //@   let elapsed := now - s.startTime >= s.delay
 //@   ensures [C03.open.stays_open+C04.open.refuses] !elapsed ==> !result && s.breaker.state == old(s.breaker.state) && ncalls(s.breaker.halfOpenListener) == 0 && ncalls(s.breaker.stateChangedListener) == 0
+//@   ensures [C03.open.try_wf] stateWF(s.breaker)
 //@   ensures [C03.open.half_opens] elapsed ==> typeis(s.breaker.state, *halfOpenState) && result == (trialCapacity(s.breaker) > 0) && asref(s.breaker.state, *halfOpenState).permittedExecutions == trialCapacity(s.breaker) - b2i(result)
 //@   havoc
 //@   modifies s.breaker.state, alloftype(halfOpenState), calls(s.breaker.clock.CurrentUnixNano), calls(s.breaker.halfOpenListener), calls(s.breaker.stateChangedListener), calls(s.breaker.DelayFunc)
@@ -350,6 +352,7 @@ package circuitbreaker
 //@   ensures [C03.halfopen.closes] sx ==> typeis(s.breaker.state, *closedState)
 //@   ensures [C03.halfopen.opens] !sx && fx ==> typeis(s.breaker.state, *openState)
 //@   ensures [C03.halfopen.undecided] !sx && !fx ==> s.breaker.state == old(s.breaker.state)
+//@   ensures [C03.halfopen.check_wf] stateWF(s.breaker)
 //@   ensures [C04.halfopen.permit_back] s.permittedExecutions == old(s.permittedExecutions) + 1
 //@   havoc
 //@   modifies s.breaker.state, s.permittedExecutions, calls(s.stats.successCount), calls(s.stats.failureCount), calls(s.stats.executionCount), calls(s.stats.successRate), calls(s.stats.failureRate), calls(s.breaker.openListener), calls(s.breaker.closeListener), calls(s.breaker.stateChangedListener), calls(s.breaker.DelayFunc), calls(s.breaker.clock.CurrentUnixNano), calls(exec.Context)
@@ -373,13 +376,13 @@ package circuitbreaker
 //@   ensures [C04.open.halfopens] k0 == OpenState && now - old(os.startTime) >= old(os.delay) ==> typeis(cb.state, *halfOpenState) && result == (trialCapacity(cb) > 0) && asref(cb.state, *halfOpenState).permittedExecutions == trialCapacity(cb) - b2i(result)
 //@   ensures [C04.halfopen.bounded] k0 == HalfOpenState ==> result == (old(hs.permittedExecutions) > 0) && hs.permittedExecutions == old(hs.permittedExecutions) - b2i(result) && cb.state == old(cb.state)
 //@   havoc
-//@   modifies cb.state, alloftype(halfOpenState), held(mutexof(cb, "mtx")), calls(cb.clock.CurrentUnixNano), calls(cb.halfOpenListener), calls(cb.stateChangedListener), calls(cb.DelayFunc)
+//@   modifies cb.state, alloftype(halfOpenState), calls(cb.clock.CurrentUnixNano), calls(cb.halfOpenListener), calls(cb.stateChangedListener), calls(cb.DelayFunc)
 
 //@ func (*circuitBreaker).State
 //@   locks cb
 //@   requires cb != nil && !held(mutexof(cb, "mtx"))
 //@   ensures [C03.api.state] result == old(kindOf(cb.state))
-//@   modifies held(mutexof(cb, "mtx"))
+//@   modifies nothing
 
 //@ func (*circuitBreaker).Open
 //@   locks cb
@@ -388,7 +391,7 @@ package circuitbreaker
 //@   ensures [C03.api.open] typeis(cb.state, *openState) && (old(kindOf(cb.state)) != OpenState ==> asref(cb.state, *openState).delay == cb.Delay)
 //@   ensures [C16.breaker.manual_open] (old(kindOf(cb.state)) != OpenState && cb.openListener != nil ==> ncalls(cb.openListener) == 1) && (old(kindOf(cb.state)) == OpenState ==> ncalls(cb.openListener) == 0)
 //@   havoc
-//@   modifies cb.state, held(mutexof(cb, "mtx")), calls(cb.openListener), calls(cb.stateChangedListener), calls(cb.DelayFunc), calls(cb.clock.CurrentUnixNano)
+//@   modifies cb.state, calls(cb.openListener), calls(cb.stateChangedListener), calls(cb.DelayFunc), calls(cb.clock.CurrentUnixNano)
 
 //@ func (*circuitBreaker).HalfOpen
 //@   locks cb
@@ -396,7 +399,7 @@ package circuitbreaker
 //@   premise cb.halfOpenListener == nil || cb.stateChangedListener == nil || cb.halfOpenListener != cb.stateChangedListener
 //@   ensures [C03.api.halfopen] typeis(cb.state, *halfOpenState) && (old(kindOf(cb.state)) != HalfOpenState ==> asref(cb.state, *halfOpenState).permittedExecutions == trialCapacity(cb))
 //@   havoc
-//@   modifies cb.state, held(mutexof(cb, "mtx")), calls(cb.halfOpenListener), calls(cb.stateChangedListener), calls(cb.DelayFunc), calls(cb.clock.CurrentUnixNano)
+//@   modifies cb.state, calls(cb.halfOpenListener), calls(cb.stateChangedListener), calls(cb.DelayFunc), calls(cb.clock.CurrentUnixNano)
 
 //@ func (*circuitBreaker).Close
 //@   locks cb
@@ -404,11 +407,116 @@ package circuitbreaker
 //@   premise cb.closeListener == nil || cb.stateChangedListener == nil || cb.closeListener != cb.stateChangedListener
 //@   ensures [C03.api.close] typeis(cb.state, *closedState)
 //@   havoc
-//@   modifies cb.state, held(mutexof(cb, "mtx")), calls(cb.closeListener), calls(cb.stateChangedListener), calls(cb.DelayFunc), calls(cb.clock.CurrentUnixNano)
+//@   modifies cb.state, calls(cb.closeListener), calls(cb.stateChangedListener), calls(cb.DelayFunc), calls(cb.clock.CurrentUnixNano)
 
 //@ func (*circuitBreaker).RemainingDelay
 //@   locks cb
 //@   requires cb != nil && !held(mutexof(cb, "mtx"))
 //@   ext now := ret(cb.clock.CurrentUnixNano, 1)
 //@   ensures [C03.api.remaining_delay] (old(kindOf(cb.state)) != OpenState ==> result == 0) && (old(kindOf(cb.state)) == OpenState ==> result == max(0, old(asref(cb.state, *openState).delay) - (now - old(asref(cb.state, *openState).startTime))))
-//@   modifies held(mutexof(cb, "mtx")), calls(cb.clock.CurrentUnixNano)
+//@   modifies calls(cb.clock.CurrentUnixNano)
+
+// ---------------------------------------------------------------------------------------------
+// Recording: the result goes to the current state's statistics, then the thresholds are checked and (half-open) the
+// trial permit is returned -- exactly once per recorded result.
+//@ macro breakerListenersDistinct(cb) = (cb.openListener == nil || cb.stateChangedListener == nil || cb.openListener != cb.stateChangedListener) && (cb.closeListener == nil || cb.stateChangedListener == nil || cb.closeListener != cb.stateChangedListener) && (cb.openListener == nil || cb.closeListener == nil || cb.openListener != cb.closeListener) && (cb.halfOpenListener == nil || cb.stateChangedListener == nil || cb.halfOpenListener != cb.stateChangedListener)
+
+//@ func (*circuitBreaker).recordSuccess
+//@   requires cb != nil && held(mutexof(cb, "mtx")) && stateWF(cb)
+//@   requires typeis(cb.state, *halfOpenState) ==> asref(cb.state, *halfOpenState).permittedExecutions <= 1073741824
+//@   premise breakerListenersDistinct(cb)
+//@   oldlet hs := asref(cb.state, *halfOpenState)
+//@   oldlet k0 := kindOf(cb.state)
+//@   ensures [C04.record.permit_back] k0 == HalfOpenState ==> hs.permittedExecutions == old(hs.permittedExecutions) + 1
+//@   ensures [C03.record.open_ignores] k0 == OpenState ==> cb.state == old(cb.state)
+//@   ensures [C03.record.success_keeps_closed] k0 == ClosedState ==> kindOf(cb.state) == ClosedState || kindOf(cb.state) == OpenState
+//@   ensures [C03.record.wf] stateWF(cb)
+//@   havoc
+//@   modifies cb.state, alloftype(halfOpenState), alloftype(countingStats), alloftype(timedStats), alloftype(stat), alloftype(bitset.BitSet), calls(cb.openListener), calls(cb.closeListener), calls(cb.stateChangedListener), calls(cb.DelayFunc), methodcalls
+
+//@ func (*circuitBreaker).recordFailure
+//@   requires cb != nil && held(mutexof(cb, "mtx")) && stateWF(cb)
+//@   requires typeis(cb.state, *halfOpenState) ==> asref(cb.state, *halfOpenState).permittedExecutions <= 1073741824
+//@   premise breakerListenersDistinct(cb)
+//@   oldlet hs := asref(cb.state, *halfOpenState)
+//@   oldlet k0 := kindOf(cb.state)
+//@   ensures [C04.record.permit_back_on_failure] k0 == HalfOpenState ==> hs.permittedExecutions == old(hs.permittedExecutions) + 1
+//@   ensures [C03.record.open_ignores_failure] k0 == OpenState ==> cb.state == old(cb.state)
+//@   ensures [C03.record.wf_failure] stateWF(cb)
+//@   havoc
+//@   modifies cb.state, alloftype(halfOpenState), alloftype(countingStats), alloftype(timedStats), alloftype(stat), alloftype(bitset.BitSet), calls(cb.openListener), calls(cb.closeListener), calls(cb.stateChangedListener), calls(cb.DelayFunc), methodcalls
+
+//@ func (*circuitBreaker).RecordSuccess
+//@   locks cb
+//@   requires cb != nil && !held(mutexof(cb, "mtx"))
+//@   premise breakerListenersDistinct(cb)
+//@   ensures [C04.api.record_success] old(kindOf(cb.state)) == HalfOpenState ==> old(asref(cb.state, *halfOpenState)).permittedExecutions == old(asref(cb.state, *halfOpenState).permittedExecutions) + 1
+//@   havoc
+//@   modifies cb.state, alloftype(halfOpenState), alloftype(countingStats), alloftype(timedStats), alloftype(stat), alloftype(bitset.BitSet), calls(cb.openListener), calls(cb.closeListener), calls(cb.stateChangedListener), calls(cb.DelayFunc), methodcalls
+
+//@ func (*circuitBreaker).RecordFailure
+//@   locks cb
+//@   requires cb != nil && !held(mutexof(cb, "mtx"))
+//@   premise breakerListenersDistinct(cb)
+//@   ensures [C04.api.record_failure] old(kindOf(cb.state)) == HalfOpenState ==> old(asref(cb.state, *halfOpenState)).permittedExecutions == old(asref(cb.state, *halfOpenState).permittedExecutions) + 1
+//@   havoc
+//@   modifies cb.state, alloftype(halfOpenState), alloftype(countingStats), alloftype(timedStats), alloftype(stat), alloftype(bitset.BitSet), calls(cb.openListener), calls(cb.closeListener), calls(cb.stateChangedListener), calls(cb.DelayFunc), methodcalls
+
+// the initial state is closed with empty statistics: state-change events form a path that starts at Closed
+//@ func (*config).Build
+//@   requires validCfg(c)
+//@   let cb := asref(result, *circuitBreaker)
+//@   ensures [C03.initial_closed+C16.breaker.path_start] typeis(result, *circuitBreaker) && fresh(cb) && cb.config == c && typeis(cb.state, *closedState) && stateWF(cb)
+//@   modifies nothing
+
+// ---------------------------------------------------------------------------------------------
+// C04 -- the executor: no permit, no execution; every admitted execution records exactly one result.
+//@ func (*executor).PreExecute
+//@   requires e != nil && e.circuitBreaker != nil && !held(mutexof(e.circuitBreaker, "mtx"))
+//@   premise e.halfOpenListener == nil || e.stateChangedListener == nil || e.halfOpenListener != e.stateChangedListener
+//@   ext now := ret(e.clock.CurrentUnixNano, 1)
+//@   let k0 := old(kindOf(e.state))
+//@   ensures [C04.pre.refused_erropen] result != nil ==> result.Error == ErrOpen && result.Done && !result.Success && !result.SuccessAll
+//@   ensures [C04.pre.open_refuses] k0 == OpenState && now - old(asref(e.state, *openState).startTime) < old(asref(e.state, *openState).delay) ==> result != nil
+//@   ensures [C04.pre.closed_admits] k0 == ClosedState ==> result == nil
+//@   ensures [C04.pre.halfopen_bounded] k0 == HalfOpenState ==> (result == nil) == (old(asref(e.state, *halfOpenState).permittedExecutions) > 0) && old(asref(e.state, *halfOpenState)).permittedExecutions == old(asref(e.state, *halfOpenState).permittedExecutions) - b2i(result == nil)
+//@   havoc
+//@   modifies e.circuitBreaker.state, alloftype(halfOpenState), calls(e.clock.CurrentUnixNano), calls(e.halfOpenListener), calls(e.stateChangedListener), calls(e.DelayFunc)
+
+//@ func (*executor).OnSuccess
+//@   requires e != nil && e.BaseExecutor != nil && e.circuitBreaker != nil && exec != nil && !held(mutexof(e.circuitBreaker, "mtx"))
+//@   premise breakerListenersDistinct(e.circuitBreaker)
+//@   oldlet recs := 0
+//@   oncall (*circuitBreaker).RecordSuccess: recs := recs + 1
+//@   ensures [C04.executor.records_success] recs == 1
+//@   havoc
+//@   modifies e.circuitBreaker.state, alloftype(halfOpenState), alloftype(countingStats), alloftype(timedStats), alloftype(stat), alloftype(bitset.BitSet), calls(e.openListener), calls(e.closeListener), calls(e.stateChangedListener), calls(e.DelayFunc), calls(e.onSuccess), calls(e.onFailure), methodcalls
+
+//@ func (*executor).OnFailure
+//@   requires e != nil && e.BaseExecutor != nil && e.circuitBreaker != nil && exec != nil && !held(mutexof(e.circuitBreaker, "mtx"))
+//@   premise breakerListenersDistinct(e.circuitBreaker)
+//@   oldlet recf := 0
+//@   oncall (*circuitBreaker).recordFailure: recf := recf + 1
+//@   ensures [C04.executor.records_failure] recf == 1
+//@   ensures [C04.executor.failure_permit_back] old(kindOf(e.state)) == HalfOpenState ==> old(asref(e.state, *halfOpenState)).permittedExecutions == old(asref(e.state, *halfOpenState).permittedExecutions) + 1
+//@   ensures [C04.executor.failure_identity] result_0 == result
+//@   havoc
+//@   modifies e.circuitBreaker.state, alloftype(halfOpenState), alloftype(countingStats), alloftype(timedStats), alloftype(stat), alloftype(bitset.BitSet), calls(e.openListener), calls(e.closeListener), calls(e.stateChangedListener), calls(e.DelayFunc), calls(e.onSuccess), calls(e.onFailure), methodcalls
+
+// Through the real template: a refused execution never reaches the inner function and fails with ErrOpen; an admitted
+// one reaches it exactly once and its result is recorded through exactly one of OnSuccess / OnFailure.
+//@ func lemmaApply
+//@   dyntype policy.Executor *executor
+//@   inlinecalls (*BaseExecutor).Apply$1, (*BaseExecutor).PostExecute
+//@   requires e != nil && e.BaseExecutor != nil && e.circuitBreaker != nil && innerFn != nil && !held(mutexof(e.circuitBreaker, "mtx"))
+//@   requires typeis(e.Executor, *executor) && asref(e.Executor, *executor) == e && typeis(exec, *failsafe.execution)
+//@   requires condsWellFormed(e.BaseExecutor)
+//@   premise breakerListenersDistinct(e.circuitBreaker)
+//@   premise forall k int :: k >= 1 ==> ret(innerFn, k) != nil
+//@   ext now := ret(e.clock.CurrentUnixNano, 1)
+//@   let k0 := old(kindOf(e.state))
+//@   ensures [C04.open_blocks_function] k0 == OpenState && now - old(asref(e.state, *openState).startTime) < old(asref(e.state, *openState).delay) ==> ncalls(innerFn) == 0 && result.Error == ErrOpen
+//@   ensures [C04.refused_means_erropen] ncalls(innerFn) == 0 ==> result.Error == ErrOpen && !result.Success
+//@   ensures [C04.at_most_once] ncalls(innerFn) <= 1
+//@   havoc
+//@   modifies e.circuitBreaker.state, alloftype(halfOpenState), alloftype(countingStats), alloftype(timedStats), alloftype(stat), alloftype(bitset.BitSet), calls(innerFn), calls(e.openListener), calls(e.closeListener), calls(e.halfOpenListener), calls(e.stateChangedListener), calls(e.DelayFunc), calls(e.onSuccess), calls(e.onFailure), methodcalls
